@@ -177,8 +177,13 @@ def check_values(m, text, options):
     for s, ps in zip(m.sources, rep['sources']):
         if ps['pulse'] != s.idx + 1:
             bad.append(dict(field='source-listing-pulse'))
-        cmp('source-listing-magnitude', ps['mag'], float(s.magnitude), tol_fixed(s.magnitude), bad)
-        cmp('source-listing-phase', ps['phase'], float(s.phase_d), tol_fixed(s.phase_d), bad)
+        # against the VOLTAGE the source drives with (not against the attributes kept for printing)
+        v_ = complex(s.voltage)
+        ph_ = math.degrees(math.atan2(v_.imag, v_.real))
+        cmp('source-listing-magnitude', ps['mag'], abs(v_), tol_fixed(abs(v_)), bad)
+        dphi = (ps['phase'] - ph_ + 180.0) % 360.0 - 180.0
+        if abs(dphi) > max(1e-4, 5e-6 * abs(ph_)) and abs(v_) > 0:
+            bad.append(dict(field='source-listing-phase', printed=ps['phase'], value=ph_))
     # load listing
     exp = [(p.idx + 1, l, p) for l in m.loads for p in l.pulses]
     for (pn, l, p), pl in zip(exp, rep['loads']):
